@@ -1437,6 +1437,19 @@ func (w *Walker) call(fr *frame, c *ssa.CallCommon, in ssa.Instruction, rt types
 	if t := w.stdModel(name, args, rt); t != nil {
 		return t
 	}
+	// a memo table (memo.go): a lookup misses, so the value is computed as on first use; storing is no event
+	if strings.HasPrefix(name, "(*sync.Map).") && len(args) > 0 && args[0].Op == "ptr" && args[0].Cell != nil && args[0].Cell.Sym && len(args[0].Path) == 0 {
+		if g := w.P.globalByName(strings.TrimPrefix(args[0].Cell.Name, "&")); g != nil && w.P.memoTable(g).ok {
+			switch name {
+			case "(*sync.Map).Load":
+				return &Term{Op: "tuple", Args: []*Term{mkNil(types.NewInterfaceType(nil, nil)), mkBool(false)}, Typ: rt}
+			case "(*sync.Map).LoadOrStore":
+				return &Term{Op: "tuple", Args: []*Term{args[2], mkBool(false)}, Typ: rt}
+			case "(*sync.Map).Store":
+				return &Term{Op: "tuple", Typ: rt}
+			}
+		}
+	}
 	t := &Term{Op: "call", Name: name, Args: args, Typ: rt, Pos: in.Pos()}
 	pure := isPureName(name)
 	if w.CallName != nil {
@@ -1501,6 +1514,41 @@ func (w *Walker) stdModel(name string, args []*Term, rt types.Type) *Term {
 				}
 				return mkNil(rt)
 			}
+		}
+	case "(binary.littleEndian).AppendUint16", "(binary.littleEndian).AppendUint32", "(binary.littleEndian).AppendUint64",
+		"(binary.bigEndian).AppendUint16", "(binary.bigEndian).AppendUint32", "(binary.bigEndian).AppendUint64":
+		// AppendUintN(b, v) appends the N/8 bytes of v in that order (documented)
+		if len(args) == 3 {
+			bits := 16
+			if strings.HasSuffix(name, "32") {
+				bits = 32
+			} else if strings.HasSuffix(name, "64") {
+				bits = 64
+			}
+			n := bits / 8
+			var els []*Term
+			switch {
+			case args[1].IsNilConst():
+			case args[1].Op == "sref":
+				els = append(els, srefElems(args[1])...)
+			default:
+				return nil
+			}
+			for i := 0; i < n; i++ {
+				k := 8 * i
+				if strings.Contains(name, "bigEndian") {
+					k = 8 * (n - 1 - i)
+				}
+				var e *Term = args[2]
+				if k > 0 {
+					e = &Term{Op: "bin", Name: ">>", Args: []*Term{args[2], mkInt(int64(k), types.Typ[types.Uint])}, Typ: args[2].Typ}
+				}
+				els = append(els, &Term{Op: "conv", Name: "uint8", Args: []*Term{e}, Typ: types.Typ[types.Uint8]})
+			}
+			at := types.NewArray(types.Typ[types.Uint8], int64(len(els)))
+			cell := w.newCell("append", at, true)
+			cell.Val = &Term{Op: "slicev", Args: els, Typ: at}
+			return &Term{Op: "sref", Cell: cell, Typ: rt, Args: []*Term{mkInt(0, types.Typ[types.Int]), mkInt(int64(len(els)), types.Typ[types.Int])}}
 		}
 	case "(netip.AddrPort).Port":
 		// selectors of a constructor: Port(AddrPortFrom(a, p)) = p, Addr(AddrPortFrom(a, p)) = a
